@@ -2,9 +2,10 @@
    (lookup), to the FIRST one (lookupone), and strict=True raises DuplicateKeyError exactly when a key repeats — for all
    tables, with the dict modelled as an insertion-ordered association list under ==.
    hashjoin / hashleftjoin: the probe loop is the nested-loop join in the order of the streamed table, and hashjoin has
-   the same multiset of rows as the sort-merge join.  hashrightjoin / hashantijoin / hashlookupjoin are tied by the
-   correspondence and judged by the extracted oracles hash_spec_holds / same_table (their theorems are not mechanised). *)
-From Verif Require Import PyVal Rows ComparableGen ComparableFacts Sort Basics Dedup Joins Relational HashJoins HashFacts JoinRel.
+   the same multiset of rows as the sort-merge join.  hashantijoin: the as-written loop returns exactly the left rows whose key is == to no right
+   key, in left order (HashAntiFacts.v).  hashrightjoin / hashlookupjoin are tied by the correspondence and judged by the
+   extracted oracles hash_spec_holds / same_table (their theorems are not mechanised). *)
+From Verif Require Import PyVal Rows ComparableGen AsIndicesGen ComparableFacts Sort Basics Dedup Joins Relational HashJoins HashFacts HashAntiFacts JoinRel.
 From Coq Require Import Permutation.
 
 Theorem C07_lookup_groups_in_table_order : forall gk gv k v rows,
@@ -59,6 +60,16 @@ Proof.
   unfold nl_join. rewrite app_nil_r. reflexivity.
 Qed.
 
+(* hashantijoin: header = left header; data = exactly the left rows whose key is == to no key of the right table, in left order *)
+Theorem C07_hashantijoin_is_the_exact_complement : forall (lkey rkey : val) (lhdr rhdr : row) (L R : list row) (outt : table),
+  hashantijoin_model lkey rkey (lhdr :: L) (rhdr :: R) = (outt, None) ->
+  exists lkind rkind rkeys,
+    asindices lhdr lkey = Ok lkind /\ asindices rhdr rkey = Ok rkind /\
+    all_some (map (raw_getkey rkind) R) = Some rkeys /\
+    (forall lrow, In lrow L -> raw_getkey lkind lrow <> None) /\
+    outt = lhdr :: filter (fun lrow => match raw_getkey lkind lrow with Some k => negb (py_in k rkeys) | None => false end) L.
+Proof. exact hashantijoin_model_exact. Qed.
+
 Open Scope Z_scope.
 Example C07_ex :
   lookup_model (VStr [107]) (Some (VStr [118]))
@@ -71,3 +82,4 @@ Print Assumptions C07_lookupone_keeps_first.
 Print Assumptions C07_strict_raises_iff_duplicate.
 Print Assumptions C07_hashjoin_is_nested_loop_in_left_order.
 Print Assumptions C07_hashjoin_agrees_with_join.
+Print Assumptions C07_hashantijoin_is_the_exact_complement.
